@@ -143,7 +143,7 @@ def _block_cases(cfgname, name, prefix, extra_sweep=None):
     for i, c in enumerate(raw):
         c["id"] = "%s%d" % (prefix, i)
         c["sweep"] = dict(extra_sweep or {"column_width": [120, 12]})
-        if any(k in ("if", "func") for k in c["meta"].get("prog", [])) and "range_markers" not in c:
+        if any(k in ("if", "func", "ifret") for k in c["meta"].get("prog", [])) and "range_markers" not in c:
             c["sweep"]["collapse_simple_statement"] = ["Never", "Always"]
         c["want"] = ["stmts", "lines", "reformat"]
         cases.append(c)
